@@ -344,6 +344,9 @@ class C06(Check):
                 run(variant(p, message=G.flip(msg, i, (i * 3 + 1) % 8).hex()), "msg-bit")
             for i in G.positions(len(sig), self.thorough, self.stride):
                 run(variant(p, signature=G.flip(sig, i, (i * 5 + 2) % 8).hex()), "sig-bit")
+            for i in (0, 1):                                   # every bit of the DER tag and length
+                for bit in range(8):
+                    run(variant(p, signature=G.flip(sig, i, bit).hex()), "sig-header-bit")
             if tweak is not None:
                 for i in G.positions(len(tweak), self.thorough, self.stride):
                     run(variant(p, tweak=G.flip(tweak, i, (i * 3) % 8).hex()), "tweak-bit")
@@ -578,7 +581,13 @@ class C06(Check):
                 vs.append(Violation("C06", "C06:load-does-not-return:malformed-" + bad[1], case, None,
                                     {"budget": got[1]}, {"error": "malformed"}, "structure"))
             return None
-        got = self.impl.run_v1(doc, root.hex(), guarded=reason is not None)
+        got = self.impl.run_v1(doc, root.hex(), guarded=reason is not None,
+                               repeats=2 if (self.thorough or label not in ("genuine", "wrong-root")) else 1)
+        if got[0] == "unstable":
+            stats.observe((label, "unstable"))
+            vs.append(Violation("C06", "C06:repeated-validation-differs:" + label, case, None, got[1],
+                                {"every call": "the same result"}, "verdicts do not depend on earlier calls"))
+            return None if reason is not None else R.v1_validate(doc, root, self.ver)
         if got[0] == "budget":
             with self.hangs.get_lock():
                 self.hangs.value += 1
